@@ -66,7 +66,10 @@ func deepInstrsScope(root *ssa.Function, depth int, prune func(*ssa.Function) bo
 					cal := staticCallee(&call.Call)
 					if cal != nil && cal.Blocks != nil && !seen[cal] && inScope(cal) && cal != root && (prune == nil || !prune(cal)) {
 						seen[cal] = true
-						walk(cal, s, append(append([]*ssa.Call{}, chain...), call), seen, d-1)
+						nchain := append(append([]*ssa.Call{}, chain...), call)
+						// s.offer(ctx, x, false): the part of the helper its constant flags switch off is not part of what this
+						// call does
+						withChainFlags(nchain[len(nchain)-1:], func() { walk(cal, s, nchain, seen, d-1) })
 						delete(seen, cal)
 					}
 					// a function literal of fn handed to a helper that does nothing with it but call it (t.locked(func() { … })):
